@@ -118,6 +118,17 @@ impl World {
         w
     }
 
+    /// Make session `b` use the same tool and model as session `a` (a second conversation
+    /// of the same agent): the session hashes stay distinct, the `tool::model` key of the
+    /// statistics coincides. Call before any checkpoint.
+    pub fn share_tool_model(&mut self, a: usize, b: usize) {
+        let (tool, model) = (self.sessions[a].tool.clone(), self.sessions[a].model.clone());
+        let s = &mut self.sessions[b];
+        s.tool = tool;
+        s.model = model;
+        s.hash = notes::session_hash(&s.tool, &s.conv);
+    }
+
     pub fn install_hooks_mode(&mut self) {
         let repo = self.repo.clone();
         let o = self.sb.git_ai(&repo, &["git-hooks", "ensure"]);
